@@ -35,7 +35,7 @@ ASSUMPTIONS = [
     'comment does not end before its last instruction; a space between our braces and a brace of the text)',
     'ASM templates, table borders and the list bullet are the defaults',
 ]
-MIN_NONTRIVIAL = {'quick': 1500, 'thorough': 30000}
+MIN_NONTRIVIAL = {'quick': 600, 'thorough': 15000}
 N_CASES = {'quick': 6400, 'thorough': 128000}
 
 F_NOWARN = 'C18-asm-comment-overwidth-no-warning'
